@@ -77,6 +77,9 @@ func (v *Val) get(key string) (*Val, bool) {
 const two53 = int64(1) << 53
 
 func absI(i int64) int64 {
+	if i == math.MinInt64 {
+		return math.MaxInt64
+	}
 	if i < 0 {
 		return -i
 	}
@@ -216,7 +219,7 @@ func allInputs() []Input {
 		in = append(in, Input{Name: name, Src: src, V: v})
 	}
 	// integers, with the 2^53 boundary
-	for _, i := range []int64{0, 1, 2, 3, -1, two53, two53 + 1, two53 + 2} {
+	for _, i := range []int64{0, 1, 2, 3, -1, two53, two53 + 1, two53 + 2, -2, -3, -two53 - 1, math.MaxInt64, math.MaxInt64 - 1, math.MinInt64, math.MinInt64 + 1} {
 		add("int:"+strconv.FormatInt(i, 10), strconv.FormatInt(i, 10), vInt(i))
 	}
 	// floats
